@@ -19,6 +19,18 @@ struct CheckDef {
     assumptions: &'static [&'static str],
 }
 
+/// thorough tier: coverage-guided campaign (libFuzzer target, total executions, max input length)
+fn fuzz_plan(id: &str) -> Option<(&'static str, u64, u32)> {
+    match id {
+        "C08" => Some(("fuzz_planner", 2_000_000, 4096)),
+        "C12" => Some(("fuzz_shards", 1_000_000, 32)),
+        "C16" => Some(("fuzz_names", 1_000_000, 300)),
+        "C07" => Some(("fuzz_dir", 600_000, 24)),
+        "C11" => Some(("fuzz_history", 150_000, 420)),
+        _ => None,
+    }
+}
+
 fn registry() -> Vec<CheckDef> {
     vec![CheckDef {
         id: "C08",
@@ -218,6 +230,23 @@ fn main() {
         Some("run") => orchestrate(&args[2], &args[3]),
         Some("worker") => worker(&args[2..]),
         Some("replay") => replay(&args[2]),
+        Some("fuzz-replay") => {
+            // re-executes a libFuzzer artifact through the same decoder and oracle, without libFuzzer
+            let data = std::fs::read(&args[3]).expect("read artifact");
+            match kvlib::fuzzdec::run_target(&args[2], &data) {
+                Ok(()) => {
+                    println!("fuzz-replay: no violation");
+                    0
+                }
+                Err(e) => {
+                    println!("fuzz-replay: {}", e);
+                    if let Some(j) = kvlib::fuzzdec::replay_json(&args[2], &data) {
+                        println!("KVCASE {}", j);
+                    }
+                    1
+                }
+            }
+        }
         Some("conc") => {
             // debugging aid: run one concurrent case and print its interleaving
             let text = std::fs::read_to_string(&args[2]).unwrap();
@@ -291,6 +320,106 @@ fn replay(file: &str) -> i32 {
             1
         }
     }
+}
+
+/// Coverage-guided campaign with libFuzzer (cargo-fuzz, sanitizer none: the oracles are in the target).
+fn fuzz_campaign(root: &std::path::Path, target: &str, runs: u64, max_len: u32, seed: u64, merged: &mut Report, infra: &mut Vec<String>) {
+    let fuzz_dir = root.join("fuzz");
+    let build = Command::new("cargo")
+        .args(["+nightly", "fuzz", "build", "-s", "none", "--fuzz-dir", &fuzz_dir.to_string_lossy(), target])
+        .current_dir(root.join("harness"))
+        .env("RUSTFLAGS", "--cfg kismet_verif -A unexpected_cfgs -A warnings")
+        .env("CARGO_NET_OFFLINE", "true")
+        .stdout(Stdio::null())
+        .stderr(Stdio::null())
+        .status();
+    let bin = fuzz_dir.join("target/x86_64-unknown-linux-gnu/release").join(target);
+    if !matches!(build, Ok(s) if s.success()) || !bin.exists() {
+        merged.assumptions.insert(format!("coverage-guided campaign {} skipped: the fuzz target did not build offline; the thorough tier relied on the larger proptest run alone", target));
+        return;
+    }
+    let procs = 8u64;
+    let work = scratch_base().join(format!("kv-fuzz-{}-{}", target, std::process::id()));
+    let _ = std::fs::remove_dir_all(&work);
+    let mut children = Vec::new();
+    for i in 0..procs {
+        let corpus = work.join(format!("corpus{}", i));
+        let art = work.join(format!("art{}", i));
+        let _ = std::fs::create_dir_all(&corpus);
+        let _ = std::fs::create_dir_all(&art);
+        if let Ok(rd) = std::fs::read_dir(fuzz_dir.join("seeds").join(target)) {
+            for e in rd.flatten() {
+                let _ = std::fs::copy(e.path(), corpus.join(e.file_name()));
+            }
+        }
+        for d in [&work, &corpus, &art] {
+            use std::os::unix::fs::PermissionsExt;
+            let _ = std::fs::set_permissions(d, std::fs::Permissions::from_mode(0o777));
+        }
+        if let Ok(rd) = std::fs::read_dir(&corpus) {
+            for e in rd.flatten() {
+                use std::os::unix::fs::PermissionsExt;
+                let _ = std::fs::set_permissions(e.path(), std::fs::Permissions::from_mode(0o666));
+            }
+        }
+        let mut cmd = Command::new(&bin);
+        cmd.arg(&corpus)
+            .arg(format!("-runs={}", runs / procs))
+            .arg(format!("-seed={}", seed.wrapping_mul(31).wrapping_add(i + 1) % 4_000_000_000 + 1))
+            .arg("-len_control=0")
+            .arg(format!("-max_len={}", max_len))
+            .arg("-print_final_stats=1")
+            .arg(format!("-artifact_prefix={}/", art.to_string_lossy()))
+            .current_dir(&work)
+            .env("VERIF_SCRATCH", &work)
+            .stdout(Stdio::null())
+            .stderr(Stdio::piped());
+        let dict = fuzz_dir.join("seeds").join(format!("{}.dict", target));
+        if dict.exists() {
+            cmd.arg(format!("-dict={}", dict.to_string_lossy()));
+        }
+        if let Ok(c) = cmd.spawn() {
+            children.push((i, c, art));
+        }
+    }
+    let mut execs = 0u64;
+    let mut corpus_units = 0u64;
+    for (i, c, art) in children {
+        let out = c.wait_with_output();
+        if let Ok(out) = out {
+            let err = String::from_utf8_lossy(&out.stderr);
+            for l in err.lines() {
+                if let Some(v) = l.strip_prefix("stat::number_of_executed_units:") {
+                    execs += v.trim().parse::<u64>().unwrap_or(0);
+                }
+                if let Some(v) = l.strip_prefix("stat::new_units_added:") {
+                    corpus_units += v.trim().parse::<u64>().unwrap_or(0);
+                }
+            }
+            if let Ok(rd) = std::fs::read_dir(&art) {
+                for a in rd.flatten() {
+                    // confirm the artifact outside libFuzzer before believing it
+                    let rep = Command::new(exe_path()).args(["fuzz-replay", target, &a.path().to_string_lossy()]).output();
+                    match rep {
+                        Ok(o) if o.status.code() == Some(1) => {
+                            let text = String::from_utf8_lossy(&o.stdout).to_string();
+                            let detail = text.lines().next().unwrap_or("").trim_start_matches("fuzz-replay: ").to_string();
+                            let case = text.lines().find_map(|l| l.strip_prefix("KVCASE ")).and_then(|j| serde_json::from_str(j).ok()).unwrap_or(json!({}));
+                            let sig = detail.split(':').take(2).collect::<Vec<_>>().join(":").trim_end_matches(' ').to_string();
+                            merged.violations.push(Violation { signature: if sig.is_empty() { "fuzz".into() } else { sig }, detail: format!("[libFuzzer {}] {}", target, detail), replay: case });
+                        }
+                        _ => infra.push(format!("libFuzzer process {} of {} left an artifact that does not reproduce outside libFuzzer: {}", i, target, a.path().display())),
+                    }
+                }
+            }
+        }
+    }
+    merged.evaluations += execs;
+    merged.extra.insert("fuzz_target".into(), json!(target));
+    merged.extra.insert("fuzz_executions".into(), json!(execs));
+    merged.extra.insert("fuzz_new_corpus_units".into(), json!(corpus_units));
+    merged.label_n(&format!("libFuzzer:{}", target), execs);
+    let _ = std::fs::remove_dir_all(&work);
 }
 
 fn orchestrate(id: &str, tier: &str) -> i32 {
@@ -384,6 +513,11 @@ fn orchestrate(id: &str, tier: &str) -> i32 {
         }
     }
     infra.extend(merged.inconclusive.iter().cloned());
+    if tier == "thorough" {
+        if let Some((target, runs, max_len)) = fuzz_plan(id) {
+            fuzz_campaign(&root, target, runs, max_len, seed, &mut merged, &mut infra);
+        }
+    }
     merged.violations.extend(regress_violations);
     merged.extra.insert("regression_replays_run".into(), json!(regress_run));
 
